@@ -122,6 +122,11 @@ class AcErrorInformationDecoder(
         error_length = buffer[1]
         error_start = 2
         error_end = error_start + error_length
+        if error_end > len(buffer):
+            raise comms.DecodeError(
+                f"Error information length ({error_length}) exceeds the data "
+                f"received ({len(buffer) - error_start})"
+            )
 
         error = None
         if error_length > 0:
